@@ -186,6 +186,16 @@ class SymNP:
         return self.eye(n, dtype=dtype)
 
     def arange(self, *args, dtype=None, **kw):
+        def conc(a):
+            if isinstance(a, Sym):
+                v = z3.simplify(a.e)
+                if z3.is_int_value(v):
+                    return v.as_long()
+                if z3.is_rational_value(v) and v.as_fraction().denominator == 1:
+                    return int(v.as_fraction())
+            return a
+
+        args = tuple(conc(a) for a in args)
         if any(isinstance(a, Sym) for a in args):
             from .shapes import SymRange
 
@@ -218,7 +228,7 @@ class SymNP:
         if isinstance(x, (list, tuple)) and A.any_symbolic(x):
             return self._unary(A.to_symarray(x), fsym, fnp)
         if hasattr(x, "_np_unary"):
-            return x._np_unary(fsym, fnp)
+            return x._np_unary(fsym, fnp, fpy)
         return fnp(x)
 
     def sqrt(self, x):
